@@ -271,7 +271,8 @@ def finding_shape(sch, mem, legal):
     """Structural class of (graph, subset) that an open known finding names, computed from the INPUT only (never from the
     observed outcome); None for everything else.  All three concern subsets holding an entity with several supertypes,
     which occurs at several places of the library's AND/OR/ANDOR hierarchy:
-    A  S lacks a supertype, but only supertypes of multiply inheriting members that still have another supertype in S;
+    A  S lacks a supertype, but only supertypes of multiply inheriting members that still have another supertype in S
+       below the same root(s);
     B  S is closed under supertypes, is illegal, and holds a multiply inheriting member;
     C  S is legal and holds a multiply inheriting member whose supertypes lead to two or more roots."""
     S = set(mem)
@@ -280,9 +281,19 @@ def finding_shape(sch, mem, legal):
         return None
     if sch.closure(S) != S:
         lacking = [e for e in S if any(s.lower() not in S for s in sch.ent(e)["supers"])]
-        if all(len(sch.ent(e)["supers"]) > 1 and any(s.lower() in S for s in sch.ent(e)["supers"]) for e in lacking):
-            return SHAPE_A
-        return None
+        def roots_above(x):
+            return set(a for a in [x] + sch.ancestors(x) if not sch.ent(a)["supers"])
+        for e in lacking:
+            sup = [s.lower() for s in sch.ent(e)["supers"]]
+            have = [s for s in sup if s in S]
+            if len(sup) < 2 or not have:
+                return None
+            covered = set()
+            for s in have:
+                covered |= roots_above(s)
+            if any(not roots_above(s) <= covered for s in sup if s not in S):
+                return None                     # the missing supertype hangs below a root of its own: a different hierarchy
+        return SHAPE_A
     if not legal:
         return SHAPE_B
     for m in multi:
